@@ -136,13 +136,52 @@ type vfBase struct {
 
 var vfC10Counter int64
 
-func vfC10LibBases() []vfBase {
+func vfC10LibBases(dir string) []vfBase {
 	var out []vfBase
+	// length of a string attribute "fillup" that brings /y's header (with its attribute "unit")
+	// to exactly 255 message bytes, found by trying (0: not found)
+	fillLen := 0
+	for n := 1; n <= 230 && fillLen == 0; n++ {
+		w, err := vfNewWorld(dir)
+		if err != nil {
+			break
+		}
+		ok := true
+		for _, o := range []vfOp{{Op: "mkds", Path: "/y", Type: "i32", Dims: []uint64{2, 3}}, {Op: "attr", Path: "/y", Name: "unit", Value: "s40"}, {Op: "attr", Path: "/y", Name: "fillup", Value: fmt.Sprintf("str:%d", n)}} {
+			if e, _ := w.Apply(o); e != nil {
+				ok = false
+			}
+		}
+		if ok && vfHeaderMessageBytes(w, "/y") == 255 {
+			fillLen = n
+		}
+		w.Remove()
+	}
+	type variant struct {
+		sb   uint8
+		k    int
+		full bool
+	}
+	var vars []variant
 	for _, sb := range []uint8{2, 0, 3} {
 		for _, k := range []int{0, 3, 7, 9} {
-			sb, k := sb, k
+			vars = append(vars, variant{sb, k, false})
+		}
+	}
+	if fillLen > 0 {
+		// the object created last has a completely full header: the end of the file is live
+		// content, not growth room, when the next session starts allocating
+		vars = append(vars, variant{2, 7, true}, variant{0, 7, true})
+	}
+	for _, v := range vars {
+		{
+			sb, k, full := v.sb, v.k, v.full
+			name := fmt.Sprintf("lib/sb%d/x-with-%d-attrs+y+g", sb, k)
+			if full {
+				name += "+y-header-full"
+			}
 			out = append(out, vfBase{
-				name: fmt.Sprintf("lib/sb%d/x-with-%d-attrs+y+g", sb, k),
+				name: name,
 				build: func(p string) error {
 					fw, err := CreateForWrite(p, CreateTruncate, WithSuperblockVersion(sb))
 					if err != nil {
@@ -167,6 +206,9 @@ func vfC10LibBases() []vfBase {
 						vfOp{Op: "attr", Path: "/ck", Name: "ca", Value: "i32a"},
 						vfOp{Op: "mkds", Path: "/y", Type: "i32", Dims: []uint64{2, 3}}, vfOp{Op: "write", Path: "/y", Pat: 2},
 						vfOp{Op: "attr", Path: "/y", Name: "unit", Value: "s40"})
+					if full {
+						ops = append(ops, vfOp{Op: "attr", Path: "/y", Name: "fillup", Value: fmt.Sprintf("str:%d", fillLen)})
+					}
 					for _, o := range ops {
 						if e, _ := w.Apply(o); e != nil {
 							fw.Close()
@@ -245,7 +287,7 @@ func TestVerif_C10(t *testing.T) {
 	r := vkit.Start(t, "C10", "model_checking")
 	defer r.Finish()
 	dir := vkit.Scratch(t)
-	bases := append(vfC10LibBases(), vfC10RefBases(6)...)
+	bases := append(vfC10LibBases(dir), vfC10RefBases(6)...)
 	maxSessions := 2
 	if r.Thorough() {
 		maxSessions = 3
